@@ -39,3 +39,11 @@ package thrift
 //@   label response-headers-reach-the-caller-whenever-there-is-a-response
 //@   ensures err == nil ==> calls(SetResponseHeaders) == 1
 //@   property C18 C18call
+
+// "nh:2 (k~2 v~2){nh}": the loop that decodes the pairs runs up to the count READ
+// FROM THE WIRE, not up to some other bound (a clamped count would stop early
+// and report success with the rest unread).
+//@ func readHeaders(reader *typed.Reader) (m map[string]string, err error)
+//@   label loop-bound-is-the-announced-count
+//@   loop 0 entry numHeaders == lastu16(reader)
+//@   property C18
